@@ -39,7 +39,7 @@ from harness import checklib, tlcrun  # noqa: E402
 REPO = os.environ.get("VERIF_REPO", "/repo")
 PYTHON = "/venv/bin/python" if os.path.exists("/venv/bin/python") else sys.executable
 
-FINDING_HUGE = "D14"        # proposed id: Pidfile.validate lets OverflowError escape (number >= 2^31 in the file)
+FINDING_HUGE = "D15"        # proposed id: Pidfile.validate lets OverflowError escape (number >= 2^31 in the file)
 MAX_REPORTS = 40
 NOBODY = 65534
 
